@@ -91,14 +91,16 @@ func run(c *rig.Ctx) {
 		}
 		m.Mem.Write(0xff12, env)
 		m.Mem.Write(0xff13, lo)
-		m.Mem.Write(0xff14, 0x80|hi)
+		// (bits 3-5 of NRx4 are not connected to anything: any value may be stored there)
+		junk := uint8(i>>2) << 3 & 0x38
+		m.Mem.Write(0xff14, 0x80|hi|junk)
 		m.Mem.Write(0xff17, env)
 		m.Mem.Write(0xff18, lo)
-		m.Mem.Write(0xff19, 0x80|hi)
+		m.Mem.Write(0xff19, 0x80|hi|junk)
 		m.Mem.Write(0xff1a, 0x80)
 		m.Mem.Write(0xff1c, 0x20)
 		m.Mem.Write(0xff1d, lo)
-		m.Mem.Write(0xff1e, 0x80|hi)
+		m.Mem.Write(0xff1e, 0x80|hi|junk)
 		if m.Mem.Read(0xff26)&0x07 != 0x07 {
 			c.Violate("channels-not-started", fmt.Sprintf("f=%d: NR52=%02X after triggering channels 1-3 with their DACs on", f, m.Mem.Read(0xff26)), nil)
 			return
